@@ -249,11 +249,21 @@ func TestVerifC14(t *testing.T) {
 
 	check := func(id string, list []model.SysIP, si int) {
 		r.Begin(id)
-		p := &RDNSS{Auto: true, Lifetime: 30 * time.Minute, Servers: append([]netip.Addr(nil), statics[si]...)}
+		// the configured slice may carry spare capacity (append growth while
+		// parsing): RA generation must not write into it
+		cfgServers := make([]netip.Addr, len(statics[si]), len(statics[si])+len(id)%4)
+		copy(cfgServers, statics[si])
+		p := &RDNSS{Auto: true, Lifetime: 30 * time.Minute, Servers: cfgServers}
 		p.Addrs = func() ([]system.IP, error) { return vIPs(list), nil }
 		ra := &ndp.RouterAdvertisement{}
 		var err error
-		if !r.Guard(id, "panic", func() { err = p.Apply(ra) }) {
+		if !r.Guard(id, "panic", func() {
+			// the RA is built repeatedly; judge the last build
+			for k := 0; k < 3; k++ {
+				ra = &ndp.RouterAdvertisement{}
+				err = p.Apply(ra)
+			}
+		}) {
 			return
 		}
 		best, ok := model.WildRDNSS(list)
